@@ -28,3 +28,52 @@ func VerifC07Concurrent(n int) {
 	verifrt.WaitAll()
 	verifrt.Assert(atomic.LoadInt32(&trials) <= 1, "at most max_requests trial requests are admitted in total, even when they arrive concurrently")
 }
+
+// VerifC07Straggler: a request admitted while the breaker was closed is still
+// in flight when other requests trip it; whenever it completes - successfully or
+// not - the breaker stays open until the timeout has elapsed: the late outcome
+// of a non-trial request neither closes nor half-opens it, and no request is
+// let through to the backend meanwhile.
+func VerifC07Straggler(succeeds int) {
+	st := verifrt.IntRange("success_threshold", 1, 2)
+	cb := NewCircuitBreaker(Settings{Name: "verif", MaxRequests: 2, Interval: time.Minute, Timeout: time.Hour, FailureThreshold: 2, SuccessThreshold: uint32(st)})
+	verifrt.Go(func() {
+		verifExec(cb, func() error {
+			verifrt.Rendezvous(2) // in flight while the others run
+			if succeeds != 0 {
+				return nil
+			}
+			return verifErrBoom
+		})
+	})
+	verifrt.Go(func() {
+		verifrt.Rendezvous(2)
+		verifExec(cb, func() error { return verifErrBoom })
+		verifExec(cb, func() error { return verifErrBoom })
+	})
+	verifrt.WaitAll()
+	verifrt.Assert(cb.State() == StateOpen, "failure_threshold failures opened the breaker and a straggler's late outcome does not change that")
+	reached := false
+	err, _ := verifExec(cb, func() error { reached = true; return nil })
+	verifrt.Assert(!reached && err == ErrCircuitBreakerOpen, "while the breaker is open and the timeout has not elapsed every request is rejected and no backend is contacted")
+}
+
+// VerifC08ConcurrentTrials: max_requests = success_threshold = 2 and two
+// requests arriving together once the timeout has elapsed: both are trials, both
+// succeed, the breaker closes - however the two interleave (a trial whose
+// success is dropped would leave the breaker half-open with its budget used up).
+func VerifC08ConcurrentTrials() {
+	cb := NewCircuitBreaker(Settings{Name: "verif", MaxRequests: 2, Interval: time.Minute, Timeout: time.Second, FailureThreshold: 1, SuccessThreshold: 2})
+	verifExec(cb, func() error { return verifErrBoom })
+	verifrt.Advance(2 * time.Second)
+	for i := 0; i < 2; i++ {
+		verifrt.Go(func() {
+			verifExec(cb, func() error { verifrt.Yield(); return nil })
+		})
+	}
+	verifrt.WaitAll()
+	admitted := false
+	verifExec(cb, func() error { admitted = true; return nil })
+	verifExec(cb, func() error { admitted = true; return nil })
+	verifrt.Assert(cb.State() == StateClosed && admitted, "two concurrent successful trials (max_requests = success_threshold = 2) close the breaker; it never stays half-open with its budget used up")
+}
